@@ -1145,6 +1145,35 @@ pub fn nullable_beside_loop_family(pool: &Pool) -> Vec<T> {
     v
 }
 
+/// "Not the word w1, and ends with (starts with, contains) the word w2" for all short words over three letters: the
+/// compiled automata have several states with the same character partition, and minimisation merges some of them
+/// into blocks represented by a state with a different one.
+pub fn excluded_word_family(pool: &Pool) -> Vec<T> {
+    let letters = [pool.a, pool.b, pool.c];
+    let mut words: Vec<Vec<u32>> = letters.iter().map(|&x| vec![x]).collect();
+    for &x in &letters {
+        for &y in &letters {
+            words.push(vec![x, y]);
+        }
+    }
+    let mut v = vec![];
+    for (i, w1) in words.iter().enumerate() {
+        for (j, w2) in words.iter().enumerate() {
+            let n = T::Not(Box::new(T::Str(w1.clone())));
+            let w = T::Str(w2.clone());
+            match (i + j) % 3 {
+                0 => v.push(T::And2(b(&n), Box::new(T::Cat2(b(&T::All), b(&w))))),
+                1 => v.push(T::And2(b(&n), Box::new(T::Cat2(b(&w), b(&T::All))))),
+                _ => v.push(T::And2(b(&n), Box::new(T::CatL(vec![T::All, w.clone(), T::All])))),
+            }
+            if w1.len() == 1 && w2.len() == 2 {
+                v.push(T::And2(b(&n), Box::new(T::Cat2(b(&T::All), b(&w)))));
+            }
+        }
+    }
+    v
+}
+
 /// Ranges whose end points are landmark code points (ends of narrower character types, the surrogate block, U+FFFD,
 /// planes): alone, complemented, followed by a letter, and two of them side by side.
 pub fn landmark_range_family() -> Vec<T> {
